@@ -38,10 +38,11 @@ def rolling (ro : RolloutSM.Rollout) : Bool :=
 
 def initializing (ro : RolloutSM.Rollout) : Bool := ro.phase == .progressing && ro.reason == .initializing
 
-/-- **C03.bind_rollout_waits** (a) — a bound rollout that leaves Initializing for InRolling in this reconcile has its
-    finalizer on the TrafficRouting -/
-def leavesInitHeld (i : Nat) (e e' : Entry) (post : Option TRO) : Bool :=
-  !(e.bound && initializing e.w.ro && !e'.gone && rolling e'.w.ro) || (holdersOf post).contains i
+/-- **C03.bind_rollout_waits** (a) — a bound rollout that leaves Initializing for InRolling in this reconcile found its
+    finalizer on the TrafficRouting when it looked (and it still is there): it goes on only when the finalizer *is*
+    there, not in the reconcile that writes it -/
+def leavesInitHeld (i : Nat) (e e' : Entry) (pre post : Option TRO) : Bool :=
+  !(e.bound && initializing e.w.ro && !e'.gone && rolling e'.w.ro) || ((holdersOf pre).contains i && (holdersOf post).contains i)
 
 /-- **C03.bind_rollout_waits** (b) — a progressing finalizer is added only to a live TrafficRouting whose phase is
     neither Finalizing nor Terminating (no resurrection of a clean-up in progress) -/
@@ -94,15 +95,23 @@ def finaliseWaitsForRestore (i : Nat) (pos : Pos) (e e' : Entry) (post : Option 
 def guardCompletedBeforeRestored (pos : Pos) (e e' : Entry) (post : Option TRO) : Bool :=
   e.bound && pos == .fin && cleanupMoved e e' && restoring post
 
+/-- **C05.bind_finalizing_unheld** — a TrafficRouting reconcile enters phase Finalizing only when no progressing
+    finalizer is left -/
+def finalizingEntryUnheld (pre post : Option TRO) : Bool :=
+  match pre, post with
+  | some t, some t' => !(t'.phase == .finalizing && t.phase != .finalizing) || (t.holders.isEmpty && !t.deleting)
+  | _, _ => true
+
 /-- **C18.bind_tr_finalizer_guard** — the TrafficRouting controller removes its own finalizer only from an object in
     deletion and only when no canary route is left (whatever progressing finalizers remain: the object then stays
-    visible until the last holder lets go).  A TrafficRouting without `objectRef` manages no route. -/
-def trFinalizerGuard (pre post : JS) : Bool :=
+    visible until the last holder lets go), in a reconcile that does not ask to be called again (the clean-up reported
+    done, grace periods included).  A TrafficRouting without `objectRef` manages no route. -/
+def trFinalizerGuard (pre post : JS) (requeue : Bool) : Bool :=
   match pre.tr with
   | none => true
   | some t =>
     let off := match post.tr with | none => true | some t' => !t'.hasFinalizer
-    if t.hasFinalizer && off then t.deleting && (post.net.canaryIng.isNone || !t.hasRef) else true
+    if t.hasFinalizer && off then t.deleting && (post.net.canaryIng.isNone || !t.hasRef) && !requeue else true
 
 /-- **C18.bind_held_stays_visible** — the object disappears only in deletion and only with its last finalizer -/
 def staysVisible (l : Label) (pre post : Option TRO) : Bool :=
